@@ -58,6 +58,10 @@ CLAIMED = {
          "Exploration: seeded caller TTL cells and builder WithTTL update lists over all Get paths (cold, sync update, background update, waiter), cancelled/pre-cancelled/deadlined callers, SkipRead on fresh entries.",
          "Without a caller TTL cell no propagation is promised: backend default or builder minimum accepted.",
          "2/C06"),
+ "C16": ("Go race detector (+checkptr) over generated concurrent client programs; report blocks counted from GORACE logs; runtime fatal errors detected by child death",
+         "Exploration / non-detection: every unordered pair (incl. self-pairs) of the public-operation catalogue on shared backends (3 kinds x 3 strategies, janitor at 1ms, items reporter) and Failover/FailoverOf/Invalidator/HTTP export, plus seeded k-subsets, each op looped by two goroutines under -race with halt_on_error=0; any report with a library frame or a runtime concurrent-map fault is a violation.",
+         "The race detector only sees executed accesses; claim is 'no report in the programs x repetitions executed'. A report without a library frame fails the check as broken.",
+         "2/C16"),
 }
 
 NOT_YET = "check not built yet in this round (planned, see DESIGN.md section 2)"
